@@ -12,7 +12,7 @@ CLAIM = {
     "category": "proof",
     "text": ("The binder model takes the implementation as a parameter (Jit, Opt, OptFast): the places where the alternative decoder differs "
              "by construction (whole document read strictly before binding, numbers overflowing float64 rejected by the reader, []byte "
-             "from arrays refused, slices grown by copy, map[uint32] keys range-checked, null into **T handled) are explicit branches. "
+             "from arrays refused, slices grown by copy, null into **T handled) are explicit branches. "
              "Coq theorem: on the proved type fragment, for every strict document without float64-overflowing numbers the three "
              "implementations give the same result, and a structurally malformed input is rejected by all three; refutation witnesses for the "
              "modelled divergences. Tie / search: the C01 case stream runs in three worker processes (default, SONIC_USE_OPTDEC=1, "
@@ -33,11 +33,9 @@ FINDINGS = [
     ("KF-C11-float-inf", ("floatinf",), lambda k, a, b, f: k == "jo-err" and b == "E"),
     ("KF-C11-bytes-array", ("bytesarr",), lambda k, a, b, f: k == "jo-err" and a == "O" and b == "E"),
     ("KF-C11-number-in-string", ("intkey", "qnum", "numstr", "qbool"), lambda k, a, b, f: k == "jo-err" and a == "E" and b == "O"),
-    ("KF-C11-jit-u32-mapkey-wrap", ("u32key",), lambda k, a, b, f: k == "jo-err" and a == "O" and b == "E"),
     ("KF-C11-jit-quoted-string-inner", ("qesc",), lambda k, a, b, f: k == "jo-err" and a == "O" and b == "E"),
     ("KF-C11-slice-null-element", ("slicenull",), lambda k, a, b, f: k == "jo-err" and a == "O" and b == "E"),
     ("KF-C11-raw-number-trailing-space", ("rawnumws",), lambda k, a, b, f: k == "jo-val"),
-    ("KF-C11-f32-overflow-edge", ("f32edge",), lambda k, a, b, f: k == "jo-err" and a == "O" and b == "E"),
     ("KF-C11-unsigned-minus-zero", ("uneg0",), lambda k, a, b, f: k == "jo-err" and a == "E" and b == "O"),
     ("KF-C11-mapstrstr-null", ("mapstrnull",), lambda k, a, b, f: k == "jo-err" and a == "O" and b == "E"),
     ("KF-C11-usenumber-bad-number", ("badnum",), lambda k, a, b, f: k == "malformed" and a == "E"),
